@@ -940,7 +940,7 @@ c_status_t UMFindData(const UMessage * msg, const char * fieldName, uint32 dataT
       pointerToBlob += blobSize+sizeof(uint32);  /* move past the blob and the next blob's string-length-field */
       idx--;
    }
-   if (pointerToBlob >= afterEndOfField) return CB_ERROR;
+   if (pointerToBlob > afterEndOfField) return CB_ERROR;  /* == is okay:  a zero-length blob that is the last item of its field has its (empty) data starting right at the end of the field */
 
    *retDataBytes = pointerToBlob;
    *retNumBytes  = UMReadInt32(pointerToBlob-sizeof(uint32));
